@@ -44,6 +44,7 @@ type FSPlan struct {
 	NewSize  int    `json:"new_size"`
 	Explicit bool   `json:"explicit_tmp,omitempty"` // caller-specified temp dir
 	Readers  int    `json:"readers"`
+	Twin     bool   `json:"twin,omitempty"` // unpackzip: additionally two overlapping unpack calls for the same archive (no faults)
 	Mode     int    `json:"mode,omitempty"` // requested mode index
 	Net      []int  `json:"net,omitempty"`  // fetch: behaviour of the download transport per attempt (0 ok, 1 truncated body, 2 error mid-body, 3 status 500, 4 body longer than announced, 5 unknown length and connection dropped half way)
 }
@@ -71,6 +72,7 @@ func (H) Generate(prop string, rng *rand.Rand, tier string) any {
 		}
 	}
 	if p.Prim == "unpackzip" {
+		p.Twin = rng.IntN(2) == 0
 		p.Dest = 0
 	}
 	if tier == "thorough" && rng.IntN(6) == 0 {
@@ -296,6 +298,12 @@ func (H) Execute(prop string, plan any, rc *simkit.RunCtx) {
 		e.cleanup()
 		return
 	}
+	if p.Twin && p.Prim == "unpackzip" && p.Dest == 0 {
+		if !twinUnpack(p, rc, setup(), newData, newState) {
+			e.cleanup()
+			return
+		}
+	}
 	e.cleanup()
 	rc.H("%s dest=%d old=%d new=%d calls=%d", p.Prim, p.Dest, p.OldSize, p.NewSize, nmut)
 	var nWrites int
@@ -381,6 +389,57 @@ func (H) Execute(prop string, plan any, rc *simkit.RunCtx) {
 		e.cleanup()
 	}
 	_ = simfs.Temps()
+}
+
+// twinUnpack: two overlapping UnpackArchive calls for the same, not yet unpacked archive, with readers. At every
+// instant the destination is absent or complete, and it is complete after both have returned.
+func twinUnpack(p *FSPlan, rc *simkit.RunCtx, e *fsEnv, newData []byte, newState string) bool {
+	defer e.cleanup()
+	_, res, err := prepareRegistry(p, e, newData)
+	if err != nil {
+		rc.Fail("C17.harness", "twin unpack set-up failed", err.Error())
+		return false
+	}
+	simfs.Begin(simfs.Plan{CrashAt: -1, ErrAt: -1, ShortAt: -1}, e.tmp)
+	stop := false
+	var wg, rwg sync.WaitGroup
+	readerFail := ""
+	for r := 0; r < 1+p.Readers; r++ {
+		rwg.Add(1)
+		go func() {
+			defer rwg.Done()
+			for i := 0; i < 600 && !stop; i++ {
+				simrt.Yield("reader")
+				if st, ok := readState(p, e); ok && st != newState && readerFail == "" {
+					readerFail = "a concurrent reader observed an unpacked directory that is not complete"
+				}
+			}
+		}()
+	}
+	errs := make([]error, 2)
+	for k := 0; k < 2; k++ {
+		k := k
+		wg.Add(1)
+		go func() {
+			defer wg.Done()
+			errs[k] = res.UnpackArchive()
+		}()
+	}
+	wg.Wait()
+	stop = true
+	rwg.Wait()
+	_, _, _ = simfs.End()
+	rc.Probe("twin-unpack")
+	if readerFail != "" {
+		rc.Fail("C17.reader-partial", readerFail+" (two overlapping unpackzip calls)", fmt.Sprintf("errors: %v / %v", errs[0], errs[1]))
+		return false
+	}
+	st, ok := readState(p, e)
+	if !ok || st != newState {
+		rc.Fail("C17.dest-fragment", "after two overlapping unpack calls the destination is missing or incomplete (unpackzip)", fmt.Sprintf("exists=%v errors: %v / %v", ok, errs[0], errs[1]))
+		return false
+	}
+	return true
 }
 
 func lastCalls(calls []simfs.Call) string {
